@@ -30,7 +30,10 @@ use core::cell::Cell;
 use core::ptr;
 use core::slice::Iter;
 use core::sync::atomic::Ordering::*;
+#[cfg(not(arc_swap_verif))]
 use core::sync::atomic::{AtomicPtr, AtomicUsize};
+#[cfg(arc_swap_verif)]
+use crate::verif_hooks::{AtomicPtr, AtomicUsize};
 
 #[cfg(feature = "experimental-thread-local")]
 use core::cell::OnceCell;
@@ -346,6 +349,47 @@ thread_local! {
 #[thread_local]
 /// A debt node assigned to this thread.
 static THREAD_HEAD: OnceCell<LocalNode> = OnceCell::new();
+
+/// Accessors for the verification harness (see `verif_hooks`).
+#[cfg(arc_swap_verif)]
+pub(crate) mod verif {
+    use super::*;
+    use crate::verif_hooks::NodeSnapshot;
+    use alloc::vec::Vec;
+
+    /// The calling thread's helping generation counter.
+    pub fn generation() -> usize {
+        LocalNode::with(|local| local.helping.verif_generation().get())
+    }
+
+    /// Preset the calling thread's helping generation counter (must be a multiple of 4).
+    pub fn set_generation(gen: usize) {
+        assert_eq!(gen % 4, 0);
+        LocalNode::with(|local| local.helping.verif_generation().set(gen))
+    }
+
+    /// Walk the global node list (ungated reads).
+    pub fn node_snapshot() -> Vec<NodeSnapshot> {
+        let mut result = Vec::new();
+        let mut current = unsafe { LIST_HEAD.load(SeqCst).as_ref() };
+        while let Some(node) = current {
+            let mut snap = NodeSnapshot {
+                addr: node as *const Node as usize,
+                in_use: node.in_use.raw_load(),
+                active_writers: node.active_writers.raw_load(),
+                helping: node.helping_slot().0.raw_load(),
+                control: node.helping.verif_control(),
+                ..NodeSnapshot::default()
+            };
+            for (i, slot) in node.fast_slots().enumerate() {
+                snap.fast[i] = slot.0.raw_load();
+            }
+            result.push(snap);
+            current = unsafe { node.next.as_ref() };
+        }
+        result
+    }
+}
 
 #[cfg(test)]
 mod tests {
